@@ -124,6 +124,32 @@ pub fn run(ctx: &Ctx, ev: &mut Ev) {
             for pre in prefixes.iter() { for suf in suffixes.iter() { let mut v = pre.clone(); v.extend_from_slice(d); v.extend_from_slice(suf); check_bytes(&mut drv, ev, &v, di % 16, true); } }
         }
     }
+    // (b3) mixed contexts: every sequence of <= 4 (thorough 5) tokens over one token per arm of the scanners - ASCII letter,
+    // space, punctuation, LTR and RTL characters of every UTF-8 length and lead-byte arm, and every class of invalid bytes -
+    // bare and after a 13-byte ASCII pad (so that the sequence meets the stride loop, the scalar loop and the short tail)
+    if ctx.want("tokens") {
+        let toks: Vec<&[u8]> = vec![b"a", b" ", b",", "\u{E9}".as_bytes(), "\u{5D0}".as_bytes(), "\u{5BE}".as_bytes(), "\u{627}".as_bytes(), "\u{7FF}".as_bytes(), "\u{4E00}".as_bytes(), "\u{800}".as_bytes(), "\u{200F}".as_bytes(),
+            "\u{202A}".as_bytes(), "\u{FB1D}".as_bytes(), "\u{FE70}".as_bytes(), "\u{FEFF}".as_bytes(), "\u{1F4A9}".as_bytes(), "\u{10800}".as_bytes(), "\u{1E900}".as_bytes(), b"\xFF", b"\x80", b"\xC3", b"\xD7", b"\xE0\x80", b"\xED\xA0\x80", b"\xE2\x80", b"\xF0\x90\xA0"];
+        let idx: Vec<usize> = (0..toks.len()).collect();
+        let maxl = if tiny { 2 } else if th { 5 } else { 4 };
+        for seq in strings_over(&idx, maxl).iter() {
+            if !ev.mine() { continue; }
+            if seq.len() == 5 && (seq[0] * 7 + seq[1] * 5 + seq[2] * 3 + seq[3] + seq[4]) % 4 != (ctx.seed as usize) % 4 { continue; }
+            let mut v: Vec<u8> = vec![]; for t in seq { v.extend_from_slice(toks[*t]); }
+            let h = seq.iter().fold(7usize, |a, b| a * 31 + b);
+            check_bytes(&mut drv, ev, &v, h % 16, true);
+            if seq.len() <= 3 || h % 4 == 0 { let mut w = vec![b'a'; 13]; w.extend_from_slice(&v); check_bytes(&mut drv, ev, &w, (h / 16) % 16, true); }
+        }
+        let units: [&[u16]; 16] = [&[0x61], &[0x20], &[0xE9], &[0x5D0], &[0x8FF], &[0x900], &[0x200F], &[0xFB1D], &[0xFE70], &[0x4E00], &[0xD802, 0xDC00], &[0xD83D, 0xDCA9], &[0xD83A, 0xDD00], &[0xD802], &[0xDC00], &[0xD800]];
+        let uidx: Vec<usize> = (0..units.len()).collect();
+        for seq in strings_over(&uidx, if tiny { 2 } else { 4 }).iter() {
+            if !ev.mine() { continue; }
+            let mut v: Vec<u16> = vec![]; for t in seq { v.extend_from_slice(units[*t]); }
+            let h = seq.iter().fold(7usize, |a, b| a * 31 + b);
+            check_units(&mut drv, ev, &v, (h % 8) * 2, true, true);
+            if seq.len() <= 3 || h % 4 == 0 { let mut w = vec![0x61u16; 13]; w.extend_from_slice(&v); check_units(&mut drv, ev, &w, (h / 8 % 8) * 2, true, true); }
+        }
+    }
     // (c) seeded random text with injected invalid UTF-8 at every stride phase; unpaired surrogates in UTF-16
     if ctx.want("random") {
         let ints = interesting();
